@@ -5,13 +5,18 @@ tie (`corr.xformer`):  tiny real `xformer.Transformer`s in float64 are run in-pr
     masks; outputs must agree to 1e-9 on every real token.  Rows/masks come (a) from harness-built batches of
     mixed lengths, arbitrary pad width and arbitrary pad content, and (b) from the real call sites
     (`encode_batch` + `PositionValuePolicy`, `ReplayBufferDataset`/`ReplayBufferBatch`, `Server.run_model`,
-    `ModelWrapper.evaluate`), observed through a recording `nn.Module` placed around the model.  The mask rows the
+    `ModelWrapper.evaluate`), observed through a recording `nn.Module` placed around the model.  Every stateful
+    call site lives through a SESSION (`schedule`): one Server / one ModelWrapper / one ReplayBufferDataset object
+    sees several rounds of batches whose sizes, widths and per-row lengths grow, shrink, reverse and repeat, so
+    that state carried from one batch to the next (reused buffers, cached masks) is exercised.  The mask rows the
     call sites pass are compared with `extraInputs ∘ encodeBatch` / `serverBatch` evaluated by the driver.
     `PolicyValue` has 4572 outputs: the driver gets a random subset of 6 rows of `move_proj` (logits are row-wise
     independent) except in the `evaluate` cases, which carry the full head and compare all probabilities.
 
 property on the implementation (always run; no model involved): alone vs padded vs batched vs other pad content
-    vs other suffix (causal), float32 (1e-5 · max(1,‖·‖∞)) and float64 (1e-12 · …); `ModelWrapper.evaluate` range.
+    vs other suffix (causal), float32 (1e-5 · max(1,‖·‖∞)) and float64 (1e-12 · …); `ModelWrapper.evaluate` range;
+    sessions of the call sites (kinds `server`, `evaluate`, `dataset`): every answer of the long-lived object vs the
+    same position evaluated alone on a fresh one.
     The comparison itself is done by the driver (`xformer close`, `xformer range`).
 """
 import asyncio
@@ -29,7 +34,9 @@ RULE = (
     "models: real xformer.Transformer, every parameter random (seeded), 1-3 layers, d_model 4..16 (direct tests up to 32), "
     "1-4 heads, positional sin/learned/none, causal on/off, text and PolicyValue heads, train and eval mode; "
     "inputs: batches of 1-5 rows of mixed lengths, pad width 0..6 beyond the longest row, pad tokens uniformly random "
-    "(non-zero), suffix perturbations for causal models, real positions of sizes 3..5 for the call sites. "
+    "(non-zero), suffix perturbations for causal models, real positions of sizes 3..5 for the call sites, which are "
+    "driven through sessions of 3-6 rounds on one object (subset / reversed / repeated / singleton / whole-pool / "
+    "multiset rounds, so widths and the length held by a row position grow and shrink). "
     "One evaluation = one row compared (model vs implementation, or implementation vs itself under a different "
     "batch/pad/suffix). Non-trivial = the row had at least one padded key, a batch mate, or a perturbed suffix; "
     "distinct by (config, seed, rows, masks, kind)."
@@ -294,8 +301,33 @@ def positions(rng, n):
     return out[:n]
 
 
-def serve(model, requests, device="cpu"):
-    """run the real Server on the requests (all submitted at once); returns [(probs float32 list, value)]"""
+def schedule(rng, n, n_rounds=None):
+    """a session for a stateful call site holding n distinct positions: several rounds of requests, each a list
+    of indices.  Rounds vary in size and order (growing and shrinking widths, a row position holding a longer
+    position after a shorter one and vice versa, repeats, singletons, the whole pool)."""
+    rounds = []
+    for _ in range(n_rounds or rng.randint(3, 6)):
+        k = rng.choice(["subset", "subset", "reverse", "repeat", "single", "all", "multiset"])
+        if k == "reverse" and rounds:
+            rounds.append(list(reversed(rounds[-1])))
+        elif k == "repeat" and rounds:
+            rounds.append(list(rounds[-1]))
+        elif k == "single":
+            rounds.append([rng.randrange(n)])
+        elif k == "all":
+            r = list(range(n))
+            rng.shuffle(r)
+            rounds.append(r)
+        elif k == "multiset":
+            rounds.append([rng.randrange(n) for _ in range(rng.randint(1, n + 1))])
+        else:
+            rounds.append(rng.sample(range(n), rng.randint(1, n)))
+    return rounds
+
+
+def serve_rounds(model, rounds, device="cpu"):
+    """ONE real Server instance, its worker loop running throughout; each round submits its requests at once and
+    waits for all answers before the next round starts.  Returns per round [(probs float32 list, value)]."""
     from tak.model import server as srv
     from tak.proto import analysis_pb2
 
@@ -303,56 +335,69 @@ def serve(model, requests, device="cpu"):
 
     async def main():
         task = asyncio.ensure_future(s.worker_loop())
+        out = []
         try:
-            rs = await asyncio.wait_for(
-                asyncio.gather(*[s.Evaluate(analysis_pb2.EvaluateRequest(position=list(r)), None) for r in requests]), 120
-            )
+            for reqs in rounds:
+                rs = await asyncio.wait_for(
+                    asyncio.gather(*[s.Evaluate(analysis_pb2.EvaluateRequest(position=list(r)), None) for r in reqs]), 120
+                )
+                out.append(rs)
         finally:
             task.cancel()
             try:
                 await task
             except BaseException:
                 pass
-        return rs
+        return out
 
     loop = asyncio.new_event_loop()
     try:
-        rs = loop.run_until_complete(main())
+        out = loop.run_until_complete(main())
     finally:
         loop.close()
     import numpy as np
 
-    return [(np.frombuffer(r.move_probs_bytes, dtype=np.float32).astype("float64").tolist(), float(r.value)) for r in rs]
+    return [[(np.frombuffer(r.move_probs_bytes, dtype=np.float32).astype("float64").tolist(), float(r.value)) for r in rs] for rs in out]
+
+
+def serve(model, requests, device="cpu"):
+    return serve_rounds(model, [requests], device)[0]
 
 
 def call_site_runs(rng, cfg, m, pe):
-    """run the four call sites on the positions `pe` = [(pos, encoded)].
-    Returns [(site, x rows, mask rows|None, lens, out dict)] as observed at the model's entry."""
+    """drive the call sites through SESSIONS on the positions `pe` = [(pos, encoded)]: one ModelWrapper, one
+    ReplayBufferDataset and one Server each live through several rounds of varying lengths per row position.
+    Returns ([(site, x rows, mask rows|None, lens, out dict)] as observed at the model's entry, evals, rounds)."""
     from tak.model import batches, encoding, wrapper
 
     rec = Recorder(m)
     runs = []
     poss = [p for p, _ in pe]
     encs = [e for _, e in pe]
+    rounds = schedule(rng, len(pe))
 
-    # ModelWrapper.evaluate: one unpadded row, no mask
+    # ModelWrapper.evaluate: one wrapper object, one unpadded row per call, no mask
     evals = []
-    for p, e in pe[:2]:
+    mw = wrapper.ModelWrapper(rec)
+    order = [i for r in rounds for i in r][:8]
+    for i in order:
         rec.calls.clear()
-        evals.append(wrapper.ModelWrapper(rec).evaluate(p))
+        evals.append((i, mw.evaluate(poss[i])))
         x, mk, out = rec.calls[-1]
-        runs.append(("wrapper", x.tolist(), None if mk is None else mk.tolist(), [len(e)], out))
+        runs.append(("wrapper", x.tolist(), None if mk is None else mk.tolist(), [len(encs[i])], out))
 
-    # encode_batch + PositionValuePolicy
-    enc, mask = encoding.encode_batch(poss)
-    b = batches.PositionValuePolicy({"positions": enc.long(), "mask": mask})
-    rec.calls.clear()
-    with torch.no_grad():
-        rec(b.inputs, *b.extra_inputs)
-    x, mk, out = rec.calls[-1]
-    runs.append(("pvp", x.tolist(), mk.tolist(), [len(e) for e in encs], out))
+    # encode_batch + PositionValuePolicy, one batch object per round, extra_inputs read afresh each time
+    for r in rounds[:3]:
+        enc, mask = encoding.encode_batch([poss[i] for i in r])
+        b = batches.PositionValuePolicy({"positions": enc.long(), "mask": mask})
+        for _ in range(2):
+            rec.calls.clear()
+            with torch.no_grad():
+                rec(b.inputs, *b.extra_inputs)
+            x, mk, out = rec.calls[-1]
+            runs.append(("pvp", x.tolist(), mk.tolist(), [len(encs[i]) for i in r], out))
 
-    # ReplayBufferDataset (cat_replay_buffer widening) + ReplayBufferBatch
+    # ReplayBufferDataset (cat_replay_buffer widening) + ReplayBufferBatch: one dataset, two epochs
     data = _replay_buffer_module()
     k = max(1, len(poss) // 2)
     bufs = []
@@ -360,31 +405,28 @@ def call_site_runs(rng, cfg, m, pe):
         if hi > lo:
             e2, m2 = encoding.encode_batch(poss[lo:hi])
             bufs.append({"positions": e2, "mask": m2, "values": torch.arange(lo, hi, dtype=torch.float32)})
-    ds = data.ReplayBufferDataset(bufs, batch_size=max(1, len(poss) - 1), device="cpu")
-    for batch in ds:
-        rec.calls.clear()
-        with torch.no_grad():
-            rec(batch.inputs, *batch.extra_inputs)
-        x, mk, out = rec.calls[-1]
-        order = [int(v) for v in batch.values.tolist()]
-        runs.append(("replay", x.tolist(), mk.tolist(), [len(encs[j]) for j in order], out))
+    ds = data.ReplayBufferDataset(bufs, batch_size=rng.randint(1, max(1, len(poss) - 1)), device="cpu")
+    for _epoch in range(2):
+        for batch in ds:
+            rec.calls.clear()
+            with torch.no_grad():
+                rec(batch.inputs, *batch.extra_inputs)
+            x, mk, out = rec.calls[-1]
+            order = [int(v) for v in batch.values.tolist()]
+            runs.append(("replay", x.tolist(), mk.tolist(), [len(encs[j]) for j in order], out))
 
-    # Server.run_model
+    # Server.run_model: one server, all rounds; rows are matched to requests in submission order
     rec.calls.clear()
-    served = serve(rec, encs)
+    serve_rounds(rec, [[encs[i] for i in r] for r in rounds])
+    todo = [encs[i] for r in rounds for i in r]
     for x, mk, out in list(rec.calls):
         xs = x.tolist()
         lens = []
-        pool = list(encs)
         for r in xs:
-            hit = next((e for e in pool if r[: len(e)] == list(e) and not any(r[len(e) :])), None)
-            if hit is None:
-                lens.append(None)
-            else:
-                pool.remove(hit)
-                lens.append(len(hit))
+            e = todo.pop(0) if todo else None
+            lens.append(len(e) if e is not None and r[: len(e)] == list(e) else None)
         runs.append(("server", xs, None if mk is None else mk.tolist(), lens, out))
-    return runs, evals, served
+    return runs, evals, rounds
 
 
 def _tie_call_sites(ctx, divs):
@@ -400,13 +442,18 @@ def _tie_call_sites(ctx, divs):
         if full:
             cfg.n_layer = 1
         m = xf.build(cfg)
-        runs, evals, served = call_site_runs(rng, cfg, m, pe)
+        runs, evals, rounds = call_site_runs(rng, cfg, m, pe)
+        rounds_str = [[ser.pos_str(pe[i][0]) for i in r] for r in rounds]
         ids = None if full else sorted(rng.sample(range(max_move_id()), N_SUB))
         n_out, w = xf.export(m, cfg, ids)
         lines, meta = [], []
         for site, rows, masks, lens, out in runs:
             ctx.count("site:" + site)
             # (1) the mask the call site built, against the model of the call site
+            if site == "server" and None in lens:
+                ctx.evaluated()
+                divs.append(Divergence("corr.xformer", {"kind": "call-site-mask", "site": site, "len": None, "rounds": rounds_str}, "rows %r" % (rows,), "each row starts with the tokens of its request"))
+                ctx.count("model-mismatch")
             if site in ("pvp", "replay", "server") and None not in lens:
                 # the replay buffer is widened to the global width: ask for all rows of the buffer at once
                 all_lens = [len(e) for _, e in pe] if site == "replay" else lens
@@ -423,7 +470,7 @@ def _tie_call_sites(ctx, divs):
                         divs.append(
                             Divergence(
                                 "corr.xformer",
-                                {"kind": "call-site-mask", "site": site, "len": l, "positions": [ser.pos_str(p) for p, _ in pe]},
+                                {"kind": "call-site-mask", "site": site, "len": l, "rounds": rounds_str},
                                 "width %d mask %s" % (len(r), xf.masks_str([mk]) if mk is not None else "none"),
                                 "expected %r" % (exp.get(l),),
                             )
@@ -458,8 +505,8 @@ def _tie_call_sites(ctx, divs):
                     worst = max(worst, d)
         # (3) the full evaluator: probabilities over all move ids
         if full:
-            p, e = pe[0]
-            probs, value = evals[0]
+            i0, (probs, value) = evals[0]
+            p, e = pe[i0]
             ans = driver.run_lines([xf.case_line("evaluate", cfg, n_out, w, [e], None)])[0]
             res = xf.parse_rows_answer(ans, "pv")
             ctx.evaluated()
@@ -493,7 +540,7 @@ def run_spec(spec):
     """-> list of (key, label, a, b): a and b must be close for the property to hold"""
     cfg = xf.Cfg.from_json(spec["cfg"])
     kind = spec["kind"]
-    if kind in ("evaluate", "server"):
+    if kind in ("evaluate", "server", "dataset"):
         return run_spec_positions(spec, cfg)
     m = xf.build(cfg)
     pairs = []
@@ -533,27 +580,91 @@ def run_spec(spec):
     return pairs
 
 
+def _rounds_of(spec):
+    """sessions are lists of rounds of positions; an older replay with a flat `positions` list is one round"""
+    return spec["rounds"] if "rounds" in spec else [spec["positions"]]
+
+
 def run_spec_positions(spec, cfg):
-    from tak.model import wrapper
+    """stateful call sites, driven through a session; every answer is compared with the same position evaluated
+    ALONE on a fresh object (a new ModelWrapper around the same model / the bare model on the unpadded row)"""
+    from tak.model import encoding, wrapper
 
     m = xf.build(cfg)
-    poss = [ser.parse_pos(s.split(" ")) for s in spec["positions"]]
-    w = wrapper.ModelWrapper(m)
-    pairs = []
-    evals = [w.evaluate(p) for p in poss]
-    if spec["kind"] == "evaluate":
-        for i, (pr, v) in enumerate(evals):
-            pairs.append(("evaluate-range", "range of ModelWrapper.evaluate on position %d" % i, [float(v)], [float(x) for x in pr.to(torch.float64).tolist()]))
-        return pairs
-    from tak.model import encoding
+    kind = spec["kind"]
+    rounds = _rounds_of(spec)
+    cache = {}
 
-    encs = [encoding.encode(p) for p in poss]
-    served = serve(m, encs)
-    same_len = len({len(e) for e in encs}) == 1
-    for i, ((pr, v), (sp, sv)) in enumerate(zip(evals, served)):
-        a = [float(v)] + pr.to(torch.float64).tolist()
-        b = [sv] + sp
-        pairs.append(("batch-dependent" if same_len else "padding-dependent", "position %d: ModelWrapper.evaluate vs served in a batch of %d" % (i, len(poss)), a, b))
+    def pos_of(s):
+        if s not in cache:
+            p = ser.parse_pos(s.split(" "))
+            cache[s] = (p, encoding.encode(p))
+        return cache[s]
+
+    alone_eval = {}
+
+    def alone(s):
+        if s not in alone_eval:
+            pr, v = wrapper.ModelWrapper(m).evaluate(pos_of(s)[0])
+            alone_eval[s] = [float(v)] + pr.to(torch.float64).tolist()
+        return alone_eval[s]
+
+    all_lens = {len(pos_of(s)[1]) for r in rounds for s in r}
+    dep = "batch-dependent" if len(all_lens) == 1 else "padding-dependent"
+    pairs = []
+    if kind == "evaluate":
+        # ONE wrapper lives through the whole sequence
+        w = wrapper.ModelWrapper(m)
+        k = 0
+        for r in rounds:
+            for s_ in r:
+                pr, v = w.evaluate(pos_of(s_)[0])
+                probs = [float(x) for x in pr.to(torch.float64).tolist()]
+                pairs.append(("evaluate-range", "range of ModelWrapper.evaluate on call %d" % k, [float(v)], probs))
+                if k > 0:
+                    pairs.append((dep, "call %d of one ModelWrapper vs the same position on a fresh one" % k, alone(s_), [float(v)] + probs))
+                k += 1
+        return pairs
+    if kind == "server":
+        served = serve_rounds(m, [[pos_of(s_)[1] for s_ in r] for r in rounds])
+        for ri, (r, outs) in enumerate(zip(rounds, served)):
+            for i, (s_, (sp, sv)) in enumerate(zip(r, outs)):
+                pairs.append((dep, "round %d position %d (of %d): ModelWrapper.evaluate alone vs served by one Server" % (ri, i, len(r)), alone(s_), [sv] + sp))
+        return pairs
+    # dataset: training batches.  One ReplayBufferDataset iterated for several epochs, and one PositionValuePolicy
+    # batch per round used twice; logits/value of every row vs the bare model on the unpadded row.
+    from tak.model import batches
+
+    data = _replay_buffer_module()
+    flat = [s_ for r in rounds for s_ in r]
+    raw = {}
+
+    def alone_raw(s_):
+        if s_ not in raw:
+            raw[s_] = _alone(m, cfg, list(pos_of(s_)[1]))
+        return raw[s_]
+
+    bufs, base = [], 0
+    for r in rounds:
+        e2, m2 = encoding.encode_batch([pos_of(s_)[0] for s_ in r])
+        bufs.append({"positions": e2, "mask": m2, "values": torch.arange(base, base + len(r), dtype=torch.float32)})
+        base += len(r)
+    torch.manual_seed(int(cfg.seed) % (2**31))
+    ds = data.ReplayBufferDataset(bufs, batch_size=int(spec.get("batch_size", 2)), device="cpu")
+    for ep in range(int(spec.get("epochs", 2))):
+        for bi, batch in enumerate(ds):
+            with torch.no_grad():
+                out = m(batch.inputs, *batch.extra_inputs)
+            for j, v in enumerate(batch.values.tolist()):
+                pairs.append((dep, "epoch %d batch %d row %d of one ReplayBufferDataset vs alone" % (ep, bi, j), alone_raw(flat[int(v)]), out_vec(out, cfg, j, None)))
+    for ri, r in enumerate(rounds):
+        enc, mask = encoding.encode_batch([pos_of(s_)[0] for s_ in r])
+        b = batches.PositionValuePolicy({"positions": enc.long(), "mask": mask})
+        for use in range(2):
+            with torch.no_grad():
+                out = m(b.inputs, *b.extra_inputs)
+            for j, s_ in enumerate(r):
+                pairs.append((dep, "PositionValuePolicy batch %d use %d row %d vs alone" % (ri, use, j), alone_raw(s_), out_vec(out, cfg, j, None)))
     return pairs
 
 
@@ -562,8 +673,8 @@ def judge(spec, pairs, tol=None):
     -> list of (key, what, detail) for the pairs on which the property fails"""
     cfg = spec["cfg"]
     tol = tol or TOL[cfg.get("dtype", "float64")]
-    if spec["kind"] == "server":
-        tol = max(tol, 2e-6)  # the server answers in float32 whatever the model's dtype
+    if spec["kind"] == "server" and tol < 2e-6:
+        tol = 2e-6  # the server answers in float32 whatever the model's dtype
     lines = []
     for key, label, a, b in pairs:
         if key == "evaluate-range":
@@ -654,8 +765,13 @@ def gen_position_specs(ctx, n):
         dtype = "float32" if rng.random() < 0.7 else "float64"
         cfg = rand_cfg(rng, head="pv", n_vocab=256, dtype=dtype, min_ctx=max(len(e) for _, e in pe))
         ps = [ser.pos_str(p) for p, _ in pe]
-        yield {"kind": "evaluate", "cfg": cfg.to_json(), "positions": ps[:3]}
-        yield {"kind": "server", "cfg": cfg.to_json(), "positions": ps}
+
+        def session():
+            return [[ps[i] for i in r] for r in schedule(rng, len(ps))]
+
+        yield {"kind": "evaluate", "cfg": cfg.to_json(), "rounds": session()[:3]}
+        yield {"kind": "server", "cfg": cfg.to_json(), "rounds": session()}
+        yield {"kind": "dataset", "cfg": cfg.to_json(), "rounds": session()[:3], "batch_size": rng.randint(1, 4), "epochs": 2}
 
 
 def _nontrivial(spec):
@@ -791,15 +907,33 @@ def shrink(spec, key=None):
                 s = t
             else:
                 break
-    elif kind in ("evaluate", "server"):
-        i = 0
-        while len(s["positions"]) > (1 if kind == "evaluate" else 2) and i < len(s["positions"]):
+    elif kind in ("evaluate", "server", "dataset"):
+        if "rounds" not in s:
+            s["rounds"] = [s.pop("positions")]
+        # whole rounds, last first (a failure usually needs its history, not its future)
+        ri = len(s["rounds"]) - 1
+        while ri >= 0 and len(s["rounds"]) > 1:
             t = json.loads(json.dumps(s))
-            del t["positions"][i]
+            del t["rounds"][ri]
             if still(t):
                 s = t
-            else:
-                i += 1
+            ri -= 1
+        # positions inside the rounds
+        for ri in range(len(s["rounds"])):
+            i = 0
+            while len(s["rounds"][ri]) > 1 and i < len(s["rounds"][ri]):
+                t = json.loads(json.dumps(s))
+                del t["rounds"][ri][i]
+                if still(t):
+                    s = t
+                else:
+                    i += 1
+        if kind == "dataset":
+            for f, v in (("epochs", 1), ("batch_size", 1)):
+                t = json.loads(json.dumps(s))
+                t[f] = v
+                if still(t):
+                    s = t
     # a simpler model of the same seed, when the failure survives
     while s["cfg"]["n_layer"] > 1:
         t = json.loads(json.dumps(s))
@@ -880,8 +1014,6 @@ def search(ctx, divergences, broken):
             specs = []
             if inp.get("kind") == "tie":
                 specs.append({"kind": "padded", "cfg": cj, "rows": inp["rows"], "lens": inp["lens"]})
-            if cj["head"] == "pv" and cj["n_vocab"] == 256 and "positions" in inp:
-                specs.append({"kind": "server", "cfg": cj, "positions": inp["positions"]})
             specs += list(gen_specs(ctx, 40, cfg_fixed=cj))
             for s in specs:
                 try:
@@ -890,21 +1022,26 @@ def search(ctx, divergences, broken):
                         found = True
                 except Exception:
                     continue
-        elif inp.get("kind") == "call-site-mask" and "positions" in inp:
-            for dtype in ("float64", "float32"):
-                poss = inp["positions"]
-                from tak.model import encoding
+        elif inp.get("kind") == "call-site-mask" and "rounds" in inp:
+            rounds = inp["rounds"]
+            k = json.dumps(rounds)
+            if k in probed:
+                continue
+            probed.add(k)
+            from tak.model import encoding
 
-                L = max(len(encoding.encode(ser.parse_pos(s.split(" ")))) for s in poss)
-                for _ in range(3):
+            L = max(len(encoding.encode(ser.parse_pos(s_.split(" ")))) for r in rounds for s_ in r)
+            for dtype in ("float64", "float32"):
+                for _ in range(2):
                     cfg = rand_cfg(ctx.rng, head="pv", n_vocab=256, dtype=dtype, min_ctx=L, causal=False)
-                    s = {"kind": "server", "cfg": cfg.to_json(), "positions": poss}
-                    try:
-                        for k2, _, _ in fails(s):
-                            bad_specs.append((k2, s))
-                            found = True
-                    except Exception:
-                        continue
+                    for kind in ("server", "dataset", "evaluate"):
+                        s = {"kind": kind, "cfg": cfg.to_json(), "rounds": rounds, "batch_size": 2, "epochs": 2}
+                        try:
+                            for k2, _, _ in fails(s):
+                                bad_specs.append((k2, s))
+                                found = True
+                        except Exception:
+                            continue
         if found:
             for d2 in tie_divs:
                 if d2.input.get("cfg") == inp.get("cfg") or d2.input.get("kind") == "call-site-mask":
@@ -921,7 +1058,7 @@ def search(ctx, divergences, broken):
 def replay(ctx, data):
     torch.set_num_threads(1)
     spec = data.get("replay", data)
-    if spec.get("kind") not in ("padded", "unpadded", "content", "causal", "evaluate", "server"):
+    if spec.get("kind") not in ("padded", "unpadded", "content", "causal", "evaluate", "server", "dataset"):
         return []
     ctx.count("replay:" + spec["kind"])
     out = []
